@@ -146,7 +146,7 @@ func genIface(r *hx.Rng) iface {
 		f.req = append(f.req, r.Chance(1, 2))
 		f.def = append(f.def, r.Chance(1, 3))
 		f.typ = append(f.typ, []string{"string", "number", "boolean"}[r.Intn(3)])
-		f.nulldef = append(f.nulldef, r.Chance(1, 8))
+		f.nulldef = append(f.nulldef, r.Chance(1, 4))
 	}
 	return f
 }
@@ -170,7 +170,7 @@ func (f iface) calleeYAML() string {
 	for i, n := range f.names {
 		fmt.Fprintf(&b, "      %s:\n        type: %s\n        required: %v\n", n, f.typ[i], f.req[i])
 		if f.nulldef != nil && f.nulldef[i] {
-			b.WriteString("        default:\n")
+			b.WriteString("        default:" + []string{"", " null", " ~", " !!null ''"}[(i+len(n))%4] + "\n")
 		} else if f.def[i] {
 			switch f.typ[i] {
 			case "string":
@@ -223,6 +223,11 @@ func callerYAML(r *hx.Rng, act string, af iface, wf string, wfi iface) string {
 	if r.Chance(1, 4) {
 		b.WriteString("  ev:\n    runs-on: ubuntu-latest\n    steps:\n      - run: echo ${{ github.event.foo.bar }}\n")
 	}
+	if r.Chance(1, 2) {
+		// self-hosted labels of the repository's configuration (which may contain a broken pattern)
+		fmt.Fprintf(&b, "  lbl:\n    runs-on: [self-hosted, %s]\n    steps:\n      - run: echo\n  lbl2:\n    runs-on: %s\n    steps:\n      - run: echo\n",
+			r.Pick([]string{"gpu-1", "arm64-big", "x64-small", "nolabel"}), r.Pick([]string{"gpu-2", "arm64-a", "x64-b", "other"}))
+	}
 	fmt.Fprintf(&b, "  call:\n    uses: %s\n", wf)
 	var wi []string
 	for i, n := range wfi.names {
@@ -263,7 +268,14 @@ func genRepo(r *hx.Rng, root string, k int) repo {
 	write(filepath.Join(root, ".github", "actions", "act", "index.js"), "")
 	callee := filepath.Join(root, ".github", "workflows", "callee.yaml")
 	write(callee, wfi.calleeYAML())
-	write(filepath.Join(root, ".github", "actionlint.yaml"), "config-variables:\n  - ZETA\n  - ALPHA\n  - MIDDLE\n")
+	cfg := "config-variables:\n  - ZETA\n  - ALPHA\n  - MIDDLE\n"
+	switch r.Intn(3) {
+	case 0:
+		cfg += "self-hosted-runner:\n  labels:\n    - gpu-*\n    - arm64-*\n    - x64-*\n"
+	case 1: // a broken glob pattern in the middle of the list
+		cfg += "self-hosted-runner:\n  labels:\n    - gpu-*\n    - 'bad[pattern'\n    - arm64-*\n    - x64-*\n"
+	}
+	write(filepath.Join(root, ".github", "actionlint.yaml"), cfg)
 	rp := repo{root: root, files: []string{callee}}
 	for i := 0; i < k; i++ {
 		p := filepath.Join(root, ".github", "workflows", fmt.Sprintf("caller%d.yaml", i))
